@@ -30,7 +30,14 @@ func scenC04(k *K) {
 	if collude {
 		extra = []string{adv.Own.ID}
 	}
-	c := k.NewCluster(ClusterCfg{N: 2, Type: typ, Writers: []int{0}, ExtraIDs: extra})
+	// in half of the runs the receiver is a writer too and now and then writes on top of what
+	// it has merged (its own head then has the merged entries in its ancestry)
+	rWrites := k.C.Chance(1, 2)
+	cw := []int{0}
+	if rWrites {
+		cw = []int{0, 1}
+	}
+	c := k.NewCluster(ClusterCfg{N: 2, Type: typ, Writers: cw, ExtraIDs: extra})
 	if k.C.Chance(1, 2) {
 		// manual syncs may be cancelled by the application in the very quantum in which one
 		// of their block fetches completes
@@ -288,6 +295,10 @@ func scenC04(k *K) {
 		k.Steps(k.C.Range(3, 25))
 		if k.C.Chance(1, 3) {
 			c.RandomWrite(0)
+			k.Steps(k.C.Intn(8))
+		}
+		if rWrites && k.C.Chance(1, 3) {
+			c.RandomWrite(1)
 			k.Steps(k.C.Intn(8))
 		}
 	}
